@@ -9,6 +9,7 @@ one JSON observation on stdout.
 case: {"impl": dir with robsd-exec, "probe": path of proctree, "work": scratch dir,
        "mode": "canvas" | "regress", "timeout": seconds (regress only, 0 = none),
        "tree": description, "nodes": number of nodes,
+       "hold": path of kl_hold.so (needed when the script starts with H),
        "script": [[op, arg], ...]}
 script ops (the same language the Coq model interprets):
   ["R", point]  continue the runner until it stops at sync point <point>
@@ -16,6 +17,10 @@ script ops (the same language the Coq model interprets):
   ["S", "TERM" | "ALRM" | "ALRMREAL"]
                 deliver the signal to the runner; ALRMREAL waits for the runner's own alarm(2)
   ["X", index]  node <index> exits on its own (SIGUSR1 to an 'e' node), wait until it is dead
+  ["H", ""]     first op only: the forked child of robsd-exec is held (stopped) before setsid(2) by the
+                LD_PRELOAD shim tools/kl_hold.c - the step's process group does not come up
+  ["U", ""]     release the held child and wait until the step's processes exist
+  ["E", ""]     let the configured regress-timeout pass (the runner's own alarm(2) fires if it is armed)
   ["D", millis] undriven: sleep that long (race runs)
   ["F", ""]     continue the runner until it exits (or is found blocked for good: "hang")
 
@@ -108,6 +113,9 @@ class Sched:
         self.reached = []            # outcome of every R/B
         self.rc = None
         self.buf = b''
+        self.child = None            # pid of the held child (H)
+        self.held = False
+        self.released = False
 
     # -- set up ----------------------------------------------------------
     def start(self):
@@ -135,6 +143,9 @@ class Sched:
         points = sorted({a for op, a in c['script'] if op == 'R'})
         env['ROBSD_VERIF_SYNC'] = ','.join(points)
         env['ROBSD_VERIF_FIFO'] = self.fifo
+        if c['script'] and c['script'][0][0] == 'H':
+            env['LD_PRELOAD'] = c['hold']
+            env['ROBSD_VERIF_HOLD'] = 'child.before_setsid'
         self.errf = open(self.stderr_path, 'wb')
         self.proc = subprocess.Popen(argv, env=env, stdin=subprocess.DEVNULL, stdout=subprocess.DEVNULL,
                                      stderr=self.errf, cwd=self.work)
@@ -175,6 +186,9 @@ class Sched:
                     if st is None or st[0] in 'Tt':
                         break
                     time.sleep(0.0003)
+                if name == 'child.before_setsid':
+                    self.child, self.held = pid, True      # stays stopped until U
+                    continue
                 if pid == self.pid and name == target:
                     self.at = name
                     return 'reached'
@@ -240,12 +254,61 @@ class Sched:
             time.sleep(0.001)
         return False
 
+    def group_failed(self):
+        try:
+            self.errf.flush()
+            return b'process group failure' in open(self.stderr_path, 'rb').read()
+        except OSError:
+            return False
+
     def where(self):
         if self.exited():
             return 'exited'
         if self.at != 'running':
             return self.at
-        return 'blocked' if in_wait(self.pid) else 'running'
+        if in_wait(self.pid):
+            return 'blocked.groupfail' if self.group_failed() else 'blocked'
+        return 'running'
+
+    def wait_held(self):
+        """H: wait until the forked child has announced itself and is stopped before setsid"""
+        end = time.time() + T_POINT
+        while time.time() < end and not self.held:
+            lines = self.buf.split(b'\n')
+            for i, line in enumerate(lines[:-1]):
+                if line.startswith(b'child.before_setsid '):
+                    self.child, self.held = int(line.split()[1]), True
+                    del lines[i]
+                    self.buf = b'\n'.join(lines)
+                    break
+            if self.held:
+                break
+            r, _, _ = select.select([self.rfd], [], [], 0.002)
+            if r:
+                try:
+                    self.buf += os.read(self.rfd, 4096)
+                except BlockingIOError:
+                    pass
+        t1 = time.time() + 5
+        while self.held and time.time() < t1:
+            st = stat_of(self.child)
+            if st is None or st[0] in 'Tt':
+                break
+            time.sleep(0.0003)
+        return self.held
+
+    def expire(self, w):
+        """E / ALRMREAL: let the configured timeout pass; True if the runner's alarm fired"""
+        end = time.time() + self.c.get('timeout', 1) + 1.5
+        if w not in ('running', 'blocked', 'blocked.groupfail', 'exited'):
+            while time.time() < end and not sigpending(self.pid, signal.SIGALRM):
+                time.sleep(0.005)
+            return sigpending(self.pid, signal.SIGALRM)
+        if w in ('blocked', 'blocked.groupfail'):
+            while time.time() < end and in_wait(self.pid) and not self.exited():
+                time.sleep(0.002)
+            return self.exited() or not in_wait(self.pid)
+        return False
 
     # -- script -----------------------------------------------------------------
     def run_script(self):
@@ -254,27 +317,37 @@ class Sched:
                 self.reached.append(self.advance(arg))
             elif op == 'B':
                 self.reached.append(self.advance('blocked'))
-            elif op == 'S':
-                if not self.c.get('race'):
+            elif op == 'H':
+                if not self.wait_held():
+                    raise RuntimeError('the child was not held before setsid')
+            elif op == 'U':
+                if self.held and not self.released:
+                    self.released = True
+                    try:
+                        os.kill(self.child, signal.SIGCONT)
+                    except OSError:
+                        pass
+                    self.wait_ready()
+            elif op == 'E' or (op == 'S' and arg == 'ALRMREAL'):
+                if not self.held or self.released:
                     self.wait_ready()
                 w = self.where()
-                if arg == 'ALRMREAL':
-                    end = time.time() + self.c.get('timeout', 1) + 3
-                    if w not in ('running', 'blocked', 'exited'):
-                        while time.time() < end and not sigpending(self.pid, signal.SIGALRM):
-                            time.sleep(0.005)
-                    elif w == 'blocked':
-                        while time.time() < end and in_wait(self.pid) and not self.exited():
-                            time.sleep(0.002)
+                self.expire(w)
+                # the configured timeout has passed while the step was running: an event, whether or
+                # not the runner noticed
+                if w not in ('running', 'exited') and self.c.get('timeout', 0) > 0 and self.c.get('mode') == 'regress':
                     self.deliveries.append(['ALRM', w])
-                else:
-                    signo = signal.SIGTERM if arg == 'TERM' else signal.SIGALRM
-                    if w != 'exited':
-                        try:
-                            os.kill(self.pid, signo)
-                        except OSError:
-                            w = 'exited'
-                    self.deliveries.append([arg, w])
+            elif op == 'S':
+                if not self.c.get('race') and (not self.held or self.released):
+                    self.wait_ready()
+                w = self.where()
+                signo = signal.SIGTERM if arg == 'TERM' else signal.SIGALRM
+                if w != 'exited':
+                    try:
+                        os.kill(self.pid, signo)
+                    except OSError:
+                        w = 'exited'
+                self.deliveries.append([arg, w])
             elif op == 'X':
                 self.wait_ready()
                 pid = self.members().get(int(arg))
@@ -309,7 +382,8 @@ class Sched:
             elif op == 'D':
                 time.sleep(float(arg) / 1000.0)
             elif op == 'F':
-                self.wait_ready()
+                if not self.held or self.released:
+                    self.wait_ready()
                 self.reached.append(self.advance('exit'))
 
     # -- observation -------------------------------------------------------------
@@ -337,7 +411,10 @@ class Sched:
     def observe(self):
         members = self.members()
         pgid = members.get(0, 0)
-        if not pgid:
+        never_up = self.held and not members
+        if never_up:
+            members = {0: self.child}       # the step exists only as the held child
+        elif not pgid:
             # the main process never reported (race runs): it is the group leader among the
             # processes that descend from this scheduler, if it still exists in any form
             for p in descendants(os.getpid()):
@@ -379,9 +456,11 @@ class Sched:
         return {
             'result': result,
             'main': {'gone': 'reaped', 'zombie': 'zombie', 'alive': 'alive'}.get(main0, main0),
-            'alive': [1 if later.get(i) == 'alive' else 0 for i in range(n)],
-            'alive_at_exit': [1 if first.get(i) == 'alive' else 0 for i in range(n)],
+            'alive': [1 if later.get(i, 'alive' if never_up else None) == 'alive' else 0 for i in range(n)],
+            'alive_at_exit': [1 if first.get(i, 'alive' if never_up else None) == 'alive' else 0 for i in range(n)],
             'ready': len(members) >= n,
+            'slow': self.group_failed(),
+            'held': self.held,
             'strangers': strangers,
             'kills': kills,
             'deliveries': self.deliveries,
